@@ -4,5 +4,5 @@ func init() {
 	registerProperty(&PropertyConfig{ID: "C02", Explain: "representation invariant of guards/patches preserved by every operation; Unpatch writes back exactly the captured bytes; frames restrict writes to the entry window"})
 	registerProperty(&PropertyConfig{ID: "C01", Explain: "mechanism part: the entry window holds nop; movabs rdx,&funcvalue; jmp [rdx] with the func-value address (not the code pointer) of the replacement kept reachable through the patches table"})
 	registerProperty(&PropertyConfig{ID: "C11", Explain: "ghost lockset: every access to the patch table and every write of an entry window happens with patchesLock held; text access under memoryAccessLock; PROT_EXEC never dropped"})
-	registerProperty(&PropertyConfig{ID: "C13", Explain: "configuration checks precede every write: exceptional postconditions 'error/panic => text unchanged'; error-chain typing"})
+	registerProperty(&PropertyConfig{ID: "C13", Replay: replayC13, Explain: "configuration checks precede every write: exceptional postconditions 'error/panic => text unchanged'; error-chain typing"})
 }
